@@ -98,7 +98,14 @@ def run(tier, seed, replay):
     corpus = read_corpus("C18")
     cases = [gen_case(rng) for _ in range(n)]
     lines = corpus + [line_of(c) for c in cases]
-    impl, model = kernel_pair(lines, shards=12)
+    # a third of the generated cases: the scene's own copies are dynamic reflect values (hand-assembled / reflectively cloned
+    # scenes); for the model a copy is a copy, so it gets the plain request
+    impl_lines = corpus + [l + (" dyn" if j % 3 == 1 else "") for j, l in enumerate(lines[len(corpus):])]
+    impl = run_lines(harness_bin("kernels"), impl_lines, shards=12)
+    model = run_lines(os.path.join(OCAML, "driver"), lines, shards=12)
+    impl += ["<missing>"] * (len(lines) - len(impl))
+    model += ["<missing>"] * (len(lines) - len(model))
+    lines = impl_lines
     diverged, oracle_fail, nontriv = [], [], set()
     for l, a, b in zip(lines, impl, model):
         if a != b:
